@@ -401,7 +401,7 @@ def tan(x: Interval):
     zh = x.hi % numpy_pi
 
     # [-∞, ∞]
-    case1a = width(x) > numpy_pi
+    case1a = width(x) >= numpy_pi  # a closed interval one period wide contains a pole
     case1b = (zh < zl) & contain(domain1, zl) & contain(domain1, zh)
     case1c = (zh < zl) & contain(domain2, zl) & contain(domain2, zh)
     case1d = contain(domain1, zl) & contain(domain2, zh)
@@ -437,7 +437,7 @@ def tan_vector(x: Interval):  # Vectorised version of tan().
     b = tan_h.copy()
 
     # [-∞, ∞]
-    case1a = width(x) > numpy_pi
+    case1a = width(x) >= numpy_pi  # a closed interval one period wide contains a pole
     case1b = (zh < zl) & contain(domain1, zl) & contain(domain1, zh)
     case1c = (zh < zl) & contain(domain2, zl) & contain(domain2, zh)
     case1d = contain(domain1, zl) & contain(domain2, zh)
